@@ -39,6 +39,45 @@ impl P {
         }
     }
 
+    /// the guard lives in a helper whose Err is propagated with `?`: must NOT be flagged
+    pub fn gated(&mut self, depth: usize) -> Result<Tree, String> {
+        let next = Self::gate(depth)?;
+        match self.toks.pop() {
+            Some(0) => Ok(Tree::Wrap(Box::new(self.gated(next)?))),
+            Some(n) => Ok(Tree::Leaf(n)),
+            None => Err("eoi".to_string()),
+        }
+    }
+
+    fn gate(depth: usize) -> Result<usize, String> {
+        let next = depth + 1;
+        if next > 40 {
+            return Err("too deep".to_string());
+        }
+        Ok(next)
+    }
+
+    /// a helper that looks like a gate but also answers Ok beyond the limit: must be flagged
+    pub fn leaky_gated(&mut self, depth: usize) -> Result<Tree, String> {
+        let next = Self::leaky_gate(depth, self.toks.len())?;
+        match self.toks.pop() {
+            Some(0) => Ok(Tree::Wrap(Box::new(self.leaky_gated(next)?))),
+            Some(n) => Ok(Tree::Leaf(n)),
+            None => Err("eoi".to_string()),
+        }
+    }
+
+    fn leaky_gate(depth: usize, hint: usize) -> Result<usize, String> {
+        let next = depth + 1;
+        if hint > 7 {
+            return Ok(next);
+        }
+        if next > 40 {
+            return Err("too deep".to_string());
+        }
+        Ok(next)
+    }
+
     /// loop-carried wrap without any charge: must be flagged by R-DEPTH.ast
     pub fn wrap_loop(&mut self) -> Tree {
         let mut t = Tree::Leaf(0);
